@@ -15,7 +15,7 @@ META = {
     'rule': 'seeded random objects of the six kinds x n in {0,1,2,3,(4)}; the enumerated set is compared with (i) the Lean model, '
             '(ii) the set {w over Sigma, |w|<=n : independent oracle accepts w}, (iii) generate_language; PDA: closure limit 6 and '
             'equality required only when the Lean model reports no truncation; TM: budgets {5,50}; non-trivial = enumeration with >=2 '
-            'words and n>=1; distinct by (object, n)',
+            'words and n>=1; distinct by (object, n); also regexps over {0,1}, unit-chain and near-CNF grammars (CNF-shaped rules, grammar not in CNF), PDAs with ambiguous multi-character stack symbols and fan-out; every untruncated enumeration is additionally compared with the library\'s own acceptance test on a sample of words',
     'assumptions': ['valid objects (constructors); single-character symbols'],
     'trusted_base': ['Spec: Gamba/Spec/*.lean'],
 }
